@@ -627,6 +627,33 @@ func (e *Env) call(x *SExpr) Val {
 			return e.fail("iface_ptr")
 		}
 		return ptrFromRef(t, a.If[1])
+	case "within":
+		// within(a, b): slice a lies inside the first len(b) elements of b's backing array window
+		a, b := argv(0), argv(1)
+		if a.K != KSlice || b.K != KSlice {
+			return e.fail("within of non-slices")
+		}
+		return boolVal(and(eq(a.Sl[0], b.Sl[0]), sx("bvsle", b.Sl[1], a.Sl[1]), sx("bvsle", i64(0), a.Sl[2]), sx("bvsle", bvAdd(a.Sl[1], a.Sl[2]), bvAdd(b.Sl[1], b.Sl[2]))))
+	case "allnonnil":
+		m := argv(0)
+		mt, ok := m.T.Underlying().(*types.Map)
+		if m.K != KRef || !ok {
+			return e.fail("allnonnil of non-map")
+		}
+		ks, ok := vc.mapKeySort(mt)
+		if !ok {
+			return e.fail("allnonnil: composite key")
+		}
+		base := "M:" + typeKey(mt)
+		d := vc.heapGet(e.st, base+".dom", arraySort(sortRef, arraySort(ks, sortBool)))
+		vls := leavesOf(mt.Elem())
+		if len(vls) != 1 || vls[0].sort != sortRef {
+			return e.fail("allnonnil: values are not references")
+		}
+		h := vc.heapGet(e.st, base+".val", arraySort(sortRef, arraySort(ks, sortRef)))
+		*e.qn++
+		q := quote(fmt.Sprintf("k!q%d", *e.qn))
+		return boolVal(fmt.Sprintf("(forall ((%s %s)) (! (=> (select (select %s %s) %s) (not (= (select (select %s %s) %s) 0))) :pattern ((select (select %s %s) %s))))", q, ks, d, m.S, q, h, m.S, q, h, m.S, q))
 	case "crc32":
 		a := argv(0)
 		if a.K != KSlice {
